@@ -166,3 +166,71 @@ Section DescSyntax.
 End DescSyntax.
 Arguments hp_errors {A} _.
 Arguments hp_file {A} _.
+
+(* ---------- (4) round 8: a pass of the grpc/json provider that ends at an entry the scanner refuses ----------
+   bufio.Scanner stops for good at a line that does not fit its buffer (longer than MaxAmmoSize, or than
+   bufio.MaxScanTokenSize when the option is not set): Scan returns false, Err() = ErrTooLong.  The entries
+   behind that line can never be delivered, so the run has to END WITH AN ERROR whatever Limit / Passes say —
+   unless the limit ended it before the scanner got that far. *)
+
+Section GrpcRefused.
+  Variable unmarshal : bytes -> option (bytes * bytes).
+  Variable continue_on_error : bool.
+  Variable limit : Z.
+
+  (* SPECIFICATION (no pass loop, no pass counter): what a consumer sees of a file whose accepted lines are
+     [left] and whose next line is refused, [ammo] entries having been delivered already *)
+  Fixpoint refused_spec (ammo : Z) (left : list bytes) : list pres :=
+    match left with
+    | [] => [PErr]                                        (* the refused entry: rejected with an error *)
+    | l :: r =>
+        if limit_reached limit ammo then [PDone]
+        else match unmarshal (drop_cr l) with
+             | Some (t, c) => PDeliver t c :: refused_spec (ammo + 1) r
+             | None => if continue_on_error then PInvalid :: refused_spec (ammo + 1) r else [PErr]
+             end
+    end.
+
+  (* the pass loop with the ORDER of the checks behind the line loop as a parameter.
+     [err_first = true]: scanner.Err() is looked at first, then "no ammo", Limit, Passes — the code;
+     [err_first = false]: "no ammo", Limit, Passes first and scanner.Err() only before the file is rewound. *)
+  Fixpoint grpc_run_ord (err_first : bool) (passes : Z) (k : nat) (all : list bytes) (e : scan_end)
+      (ammo pass : Z) (left : list bytes) : list pres :=
+    match k with
+    | O => []
+    | S k' =>
+        let step l r ps :=
+          if limit_reached limit ammo then [PDone]
+          else match unmarshal (drop_cr l) with
+               | Some (t, c) => PDeliver t c :: grpc_run_ord err_first passes k' all e (ammo + 1) ps r
+               | None => if continue_on_error then PInvalid :: grpc_run_ord err_first passes k' all e (ammo + 1) ps r else [PErr]
+               end in
+        let rewind :=
+          match all with
+          | [] => [PErr]
+          | l :: r => step l r (pass + 1)
+          end in
+        let scan_err (next : list pres) := match e with STooLong => [PErr] | SEof => next end in
+        let bounds (next : list pres) :=
+          if ammo =? 0 then [PErr]
+          else if limit_reached limit ammo then [PDone]
+          else if negb (passes =? 0) && (passes <=? pass) then [PDone]
+          else next in
+        match left with
+        | l :: r => step l r pass
+        | [] => if err_first then scan_err (bounds rewind) else bounds (scan_err rewind)
+        end
+    end.
+End GrpcRefused.
+
+(* what the driver judges a grpc/json run by when the file has a refused entry: Some expected first-k results *)
+Definition grpc_refused_expected (unmarshal : bytes -> option (bytes * bytes)) (cont : bool)
+    (limit passes max : Z) (k : nat) (file : bytes) : option (list pres) :=
+  match opt_accept OIntMin0 limit, opt_accept OIntMin0 passes, opt_accept OInt max with
+  | Some l, Some _, Some m =>
+      match scan_lines_opt m file with
+      | (a, STooLong) => Some (firstn k (refused_spec unmarshal cont l 0 a))
+      | (_, SEof) => None
+      end
+  | _, _, _ => None
+  end.
